@@ -150,8 +150,8 @@ macro_rules! c12_build {
         }
     };
 }
-c12_build!(c12_sais_n2, thorough, 257, 2, SAIS);
-c12_build!(c12_sais_n3, thorough, 257, 3, SAIS);
+c12_build!(c12_sais_n2, probe, 257, 2, SAIS);
+c12_build!(c12_sais_n3, probe, 257, 3, SAIS);
 
 macro_rules! c12_sais_small {
     ($name:ident, $tier:ident, $unwind:literal, $n:literal, $alpha:literal) => {
@@ -163,16 +163,67 @@ macro_rules! c12_sais_small {
             stubs: [alloc::fmt::format => crate::common::stubs::fmt_format,
                     std::time::Instant::now => crate::common::stubs::instant_now,
                     std::time::Instant::elapsed => crate::common::stubs::instant_elapsed],
-            targets: "SuffixArray::with_config(SAIS) -> sais_construct_with_depth + classify_suffixes, find_lms_suffixes, induce_l_type, induce_s_type, name_lms_substrings, rebuild_sa_with_sorted_lms",
-            bounds: "text of N symbolic bytes, each below ALPHA (N, ALPHA from the instance); optimize_small_alphabet=false so the bucket tables have max+1 <= ALPHA entries; use_parallel=false",
+            targets: "SuffixArray::with_config(SAIS) -> sais_construct, sais_sort (suffix types, LMS placement, naming of LMS substrings, recursion on the reduced string), sais_induce, sais_bucket_heads/tails",
+            bounds: "text of N symbolic bytes, each below ALPHA (N, ALPHA from the instance); optimize_small_alphabet=false so the bucket tables have max+2 <= ALPHA+1 entries; use_parallel=false",
             oracle: "as_slice has length N, is a permutation of 0..N, and every adjacent pair of suffixes is in strict lexicographic order",
             body: { build_check_alpha::<$n>(SuffixArrayAlgorithm::SAIS, $alpha) }
         }
     };
 }
-c12_sais_small!(c12_sais_alpha2_n2, thorough, 8, 2, 2);
-c12_sais_small!(c12_sais_alpha2_n3, thorough, 8, 3, 2);
-c12_sais_small!(c12_sais_alpha3_n4, thorough, 9, 4, 3);
+c12_sais_small!(c12_sais_alpha2_n2, probe, 8, 2, 2);
+c12_sais_small!(c12_sais_alpha2_n3, probe, 8, 3, 2);
+c12_sais_small!(c12_sais_alpha3_n4, probe, 9, 4, 3);
+/// SA-IS on one concrete text (constant-folded by the symbolic executor: a regression witness, not a
+/// for-all claim). The texts are the ones the construction got wrong before its repair plus
+/// the classic examples with repeated LMS substrings (which take the recursive branch), written over
+/// the alphabet {0,1,2,3} ("aba", "abab", "banana", "mississippi", "babaa").
+fn sais_fixed<const N: usize>(t: &[u8; N]) {
+    // bucket tables sized by the largest byte (+ sentinel) instead of 257: a handful of entries
+    let mut c = cfg(SuffixArrayAlgorithm::SAIS);
+    c.optimize_small_alphabet = false;
+    let r = SuffixArray::with_config(&t[..], &c);
+    let sa = match r {
+        Ok(sa) => sa,
+        Err(e) => {
+            forget(e);
+            panic!("suffix array construction failed")
+        }
+    };
+    let s = sa.as_slice();
+    assert!(s.len() == N, "suffix array length differs from the text length");
+    let mut i = 0;
+    while i < N {
+        assert!(s[i] < N, "suffix array entry out of range");
+        if i > 0 {
+            assert!(t[s[i - 1]..] < t[s[i]..], "adjacent suffixes out of lexicographic order");
+        }
+        i += 1;
+    }
+    zcover!(true, "construction completed");
+    forget(sa);
+}
+macro_rules! c12_sais_fixed {
+    ($name:ident, $tier:ident, $unwind:literal, $text:literal) => {
+        zv_harness! {
+            name: $name,
+            prop: "C12",
+            tier: $tier,
+            unwind: $unwind,
+            stubs: [alloc::fmt::format => crate::common::stubs::fmt_format,
+                    std::time::Instant::now => crate::common::stubs::instant_now,
+                    std::time::Instant::elapsed => crate::common::stubs::instant_elapsed],
+            targets: "SuffixArray::with_config(SAIS) -> sais_construct, sais_sort (incl. the recursion on the reduced string), sais_induce, optimize_small_alphabet = false (bucket tables of max byte + 2 entries)",
+            bounds: "the ONE concrete text of the instance (no symbolic input: the symbolic executor runs the construction on constants); symbolic SA-IS inputs (c12_sais_n2/n3, c12_sais_alpha*) do not finish within the caps and are in the probe tier",
+            oracle: "strictly increasing adjacent suffixes (which implies a permutation) and length N",
+            body: { sais_fixed($text) }
+        }
+    };
+}
+c12_sais_fixed!(c12_sais_fixed_aba, quick, 14, b"\x00\x01\x00");
+c12_sais_fixed!(c12_sais_fixed_abab, quick, 14, b"\x00\x01\x00\x01");
+c12_sais_fixed!(c12_sais_fixed_banana, quick, 14, b"\x01\x00\x02\x00\x02\x00");
+c12_sais_fixed!(c12_sais_fixed_mississippi, probe, 14, b"\x01\x00\x03\x03\x00\x03\x03\x00\x02\x02\x00");
+c12_sais_fixed!(c12_sais_fixed_1010, quick, 14, b"\x01\x00\x01\x00\x00");
 c12_build!(c12_dc3_n2, quick, 5, 2, DC3);
 c12_build!(c12_dc3_n3, quick, 6, 3, DC3);
 c12_build!(c12_dc3_n4, thorough, 7, 4, DC3);
